@@ -765,6 +765,14 @@ def _is_none_test(ctx, u):
     return isinstance(p, ast.Compare) and len(p.ops) == 1 and isinstance(p.ops[0], (ast.Is, ast.IsNot)) and isinstance(p.comparators[0], ast.Constant) and p.comparators[0].value is None
 
 
+def r8(ctx, R):
+    R.rule("C03.R8", "results taken apart on the spot are never None: a call whose value is unpacked, subscripted, iterated or dereferenced immediately goes to functions that return a value on every path", floor=12, confirmed=24)
+    from .shared import check_immediate_results
+
+    idx = indexing_funcs(ctx)
+    check_immediate_results(ctx, R, "C03.R8", [ctx.m.funcs[q] for q in sorted(idx) if not ctx.m.funcs[q].rel.endswith("debug.py")])
+
+
 def run(ctx, R):
     r1(ctx, R)
     r2(ctx, R)
@@ -773,3 +781,4 @@ def run(ctx, R):
     r5(ctx, R)
     r6(ctx, R)
     r7(ctx, R)
+    r8(ctx, R)
